@@ -55,6 +55,8 @@ pub fn all_fun_families(cfg: &FunCfg, sink: &mut FunSink) {
     fam_arity(cfg, sink);
     fam_poly(cfg, sink);
     fam_wide(cfg, sink);
+    fam_byname(cfg, sink);
+    fam_declonly(cfg, sink);
     if cfg.with_unsequenced {
         fam_effect(cfg, sink);
     }
@@ -582,6 +584,9 @@ pub fn fam_codata(_cfg: &FunCfg, sink: &mut FunSink) {
         ("closure_in_list", "data FL { FNil, FCons(f: Fun[i64, i64], r: FL) }\ndef apply_all(l: FL, v: i64): i64 { l.case { FNil => v, FCons(f, r) => apply_all(r, f.ap[i64, i64](v)) } }\ndef main(n: i64): i64 { println_i64(apply_all(FCons(new { ap(q) => q + n }, FCons(new { ap(q) => q * 3 }, FNil)), 2)); 0 }".into()),
         ("self_application", "codata Rec { run(o: Rec, k: i64): i64 }\ndef main(n: i64): i64 { let d: i64 = n + 40; let o: Rec = new { run(o2, k) => if k <= 0 { d } else { o2.run(o2, k - 1) } }; println_i64(o.run(o, n)); println_i64(o.run(new { run(o3, k) => k * 2 }, 5)); 0 }".into()),
         ("self_application_pair", "codata Rec { run(o: Rec, p: Rec, k: i64): i64 }\ndef main(n: i64): i64 { let a1: i64 = n * 3; let o: Rec = new { run(q, r, k) => if k <= 0 { a1 } else { r.run(r, q, k - 1) } }; let u: Rec = new { run(q, r, k) => k + a1 }; println_i64(o.run(o, u, 1)); println_i64(o.run(u, o, 2)); println_i64(o.run(o, o, n)); 0 }".into()),
+        ("return_codata_var", "def pick(b: i64, f: Fun[i64, i64], g: Fun[i64, i64]): Fun[i64, i64] { if b == 0 { f } else { g } }\ndef idf(f: Fun[i64, i64]): Fun[i64, i64] { f }\ndef main(n: i64): i64 { println_i64(pick(n, new { ap(q) => q + 1 }, new { ap(q) => q * 2 }).ap[i64, i64](20)); println_i64(idf(pick(n - 1, new { ap(q) => q - 7 }, idf(new { ap(q) => q * n }))).ap[i64, i64](5)); 0 }".into()),
+        ("return_codata_clause", "def sel(l: List[i64], f: Stream[i64], g: Stream[i64]): Stream[i64] { l.case[i64] { Nil => f, Cons(h, t) => g } }\ndef main(n: i64): i64 { println_i64(sel(range(n), nats(10), nats(20)).hd[i64]); println_i64(sel(Nil, nats(n), nats(5)).tl[i64].hd[i64]); 0 }".into()),
+        ("return_codata_label", "def viaLabel(b: i64, f: Fun[i64, i64], g: Fun[i64, i64]): Fun[i64, i64] { label k { if b == 0 { goto k (f) } else { g } } }\ndef main(n: i64): i64 { println_i64(viaLabel(n, new { ap(q) => q + 3 }, new { ap(q) => q * 5 }).ap[i64, i64](4)); 0 }".into()),
         ("capture_many", "def main(n: i64): i64 { let a1: i64 = n + 1; let a2: i64 = n + 2; let a3: i64 = n + 3; let a4: i64 = n + 4; let a5: i64 = n + 5; let l: List[i64] = range(3); let f: Fun[i64, i64] = new { ap(q) => ((((q + a1) + a2) + a3) + a4) + (a5 + sum(l)) }; println_i64(f.ap[i64, i64](100)); println_i64(f.ap[i64, i64](200)); println_i64(sum(l)); 0 }".into()),
     ];
     for (name, body) in progs {
@@ -764,6 +769,99 @@ pub fn fam_wide(_cfg: &FunCfg, sink: &mut FunSink) {
                 });
             }
         }
+    }
+}
+
+// ---- FUN-LOOP: print-free loops that build and drop structures `n` times (C10, end to end) -----------
+pub const FUN_LOOP_SHAPES: [&str; 15] = ["list_ignore", "list_sum", "closure", "shared", "dead_let", "pair_of_lists", "stream", "tri_unused", "label", "clause_binders_unused_before_call", "same_args_after_clause", "same_args_after_let_obj", "same_args_after_let_closure", "same_args_after_tri", "prefix_args"];
+
+/// `main(n)` runs `n` iterations and returns an accumulator.
+pub fn fun_loop_source(shape: usize) -> String {
+    // shapes whose tail call passes exactly the (leading) parameters on, with dead variables bound
+    // in between (the explicit substitution in front of the call is then the only place where the
+    // dead variables are released)
+    let special = match FUN_LOOP_SHAPES[shape] {
+        "same_args_after_clause" => Some("def step(i: i64, s: i64, l: List[i64]): i64 { l.case[i64] { Nil => loop(i, s), Cons(x, xs) => loop(i, s) } }\ndef loop(i: i64, s: i64): i64 { if i == 0 { s } else { step(i - 1, s + 1, range(8)) } }"),
+        "same_args_after_let_obj" => Some("def step(i: i64, s: i64): i64 { let d: List[i64] = range(3); loop(i, s) }\ndef loop(i: i64, s: i64): i64 { if i == 0 { s } else { step(i - 1, s + 1) } }"),
+        "same_args_after_let_closure" => Some("def step(i: i64, s: i64): i64 { let f: Fun[i64, i64] = new { ap(q) => q + i }; loop(i, s) }\ndef loop(i: i64, s: i64): i64 { if i == 0 { s } else { step(i - 1, s + 1) } }"),
+        "same_args_after_tri" => Some("def step(i: i64, s: i64): i64 { mk(i, range(2)).case { W0 => loop(i, s), W1(a, l) => loop(i, s), W2(l, a, m) => loop(i, s) } }\ndef loop(i: i64, s: i64): i64 { if i == 0 { s } else { step(i - 1, s + 1) } }"),
+        "prefix_args" => Some("def step(i: i64, s: i64, extra: List[i64], more: Fun[i64, i64]): i64 { loop(i, s) }\ndef loop(i: i64, s: i64): i64 { if i == 0 { s } else { step(i - 1, s + 1, range(4), new { ap(q) => q + i }) } }"),
+        _ => None,
+    };
+    if let Some(defs) = special {
+        return format!(
+            "{PRELUDE_TYPES}data W {{ W0, W1(a: i64, l: List[i64]), W2(l: List[i64], a: i64, m: List[i64]) }}\n{PRELUDE_DEFS}def mk(i: i64, l: List[i64]): W {{ if i % 3 == 0 {{ W0 }} else {{ if i % 3 == 1 {{ W1(i, l) }} else {{ W2(l, i, range(1)) }} }} }}\n{defs}\ndef main(n: i64): i64 {{ loop(n, 0) }}\n"
+        );
+    }
+    let body = match FUN_LOOP_SHAPES[shape] {
+        "list_ignore" => "range(8).case[i64] { Nil => step(i - 1, s), Cons(x, xs) => step(i - 1, s + 1) }",
+        "list_sum" => "step(i - 1, s + sum(range(5)))",
+        "closure" => "let f: Fun[i64, i64] = new { ap(q) => q + i }; step(i - 1, s + (f.ap[i64, i64](1)))",
+        "shared" => "let l: List[i64] = range(4); step(i - 1, (s + sum(l)) - sum(l))",
+        "dead_let" => "let d: List[i64] = range(3); step(i - 1, s + 1)",
+        "pair_of_lists" => "Tup(range(2), range(3)).case[List[i64], List[i64]] { Tup(a, b) => step(i - 1, s + sum(a)) }",
+        "stream" => "let st: Stream[i64] = nats(i); step(i - 1, s + (st.tl[i64].hd[i64]))",
+        "tri_unused" => "mk(i, range(2)).case { W0 => step(i - 1, s), W1(a, l) => step(i - 1, s + 1), W2(l, a, m) => step(i - 1, s + 2) }",
+        "label" => "label k { if i == 3 { goto k (step(i - 1, s)) } else { step(i - 1, s + sum(range(2))) } }",
+        _ => "let l: List[i64] = range(6); l.case[i64] { Nil => step(i - 1, s), Cons(x, xs) => xs.case[i64] { Nil => step(i - 1, s), Cons(y, ys) => step(i - 1, s + x) } }",
+    };
+    format!(
+        "{PRELUDE_TYPES}data W {{ W0, W1(a: i64, l: List[i64]), W2(l: List[i64], a: i64, m: List[i64]) }}\n{PRELUDE_DEFS}def mk(i: i64, l: List[i64]): W {{ if i % 3 == 0 {{ W0 }} else {{ if i % 3 == 1 {{ W1(i, l) }} else {{ W2(l, i, range(1)) }} }} }}\ndef step(i: i64, s: i64): i64 {{ if i == 0 {{ s }} else {{ {body} }} }}\ndef main(n: i64): i64 {{ step(n, 0) }}\n"
+    )
+}
+
+// ---- FUN-BYNAME: effects inside codata-typed bound terms and arguments (by-name: the effect runs at
+// each use, never at the binding). Defined by C01's source semantics; outside C02's premise. ---------
+pub fn fam_byname(_cfg: &FunCfg, sink: &mut FunSink) {
+    let carriers = [
+        "(println_i64(100); new { ap(x) => x + n })",
+        "if n > 0 { println_i64(101); new { ap(x) => x + n } } else { println_i64(102); new { ap(x) => x - n } }",
+        "range(n).case[i64] { Nil => (println_i64(103); new { ap(x) => x }), Cons(h, t) => (println_i64(104); new { ap(x) => x * h }) }",
+        "label k { println_i64(105); if n == 2 { goto k (new { ap(x) => 0 - x }) } else { new { ap(x) => x + 1 } } }",
+        "(println_i64(106); mkf(n))",
+    ];
+    for (ci, carrier) in carriers.iter().enumerate() {
+        for binding in ["let", "arg"] {
+            for uses in 0..3usize {
+                let carrier = *carrier;
+                sink.offer(move || {
+                    let use_expr = |f: &str| match uses {
+                        0 => "5".to_string(),
+                        1 => format!("{f}.ap[i64, i64](1)"),
+                        _ => format!("({f}.ap[i64, i64](1)) + ({f}.ap[i64, i64](2))"),
+                    };
+                    let body = if binding == "let" {
+                        format!("let f: Fun[i64, i64] = {carrier}; println_i64(7); println_i64({}); 3", use_expr("f"))
+                    } else {
+                        format!("println_i64(user(n, {carrier})); 3")
+                    };
+                    let src = format!(
+                        "{PRELUDE_TYPES}{PRELUDE_DEFS}def mkf(d: i64): Fun[i64, i64] {{ new {{ ap(x) => x * d }} }}\ndef user(m: i64, g: Fun[i64, i64]): i64 {{ println_i64(8); {} }}\ndef main(n: i64): i64 {{ {body} }}\n",
+                        use_expr("g")
+                    );
+                    FunCase { name: format!("byname/c{ci}/{binding}/u{uses}"), src, inputs: vec![vec![0], vec![2], vec![5]], sequenced: false }
+                });
+            }
+        }
+    }
+}
+
+// ---- FUN-DECLONLY: a type instance that is only mentioned inside another declaration (destructor
+// result, destructor parameter, constructor field), monomorphic and polymorphic --------------------
+pub fn fam_declonly(_cfg: &FunCfg, sink: &mut FunSink) {
+    let progs: Vec<(&str, &str)> = vec![
+        ("dtor_result_data", "codata Mk { get: Res }\ndata Res { R(v: i64) }\ndef mk(n: i64): Mk { new { get => R(n) } }\ndef main(n: i64): i64 { println_i64(mk(n).get.case { R(v) => v + 1 }); 0 }"),
+        ("dtor_result_codata", "codata Outer { inner: Inner }\ncodata Inner { val: i64 }\ndef mk(n: i64): Outer { new { inner => new { val => n * 2 } } }\ndef main(n: i64): i64 { println_i64(mk(n).inner.val); 0 }"),
+        ("dtor_param_data", "codata Eater { eat(x: Res): i64 }\ndata Res { R(v: i64) }\ndef mk(n: i64): Eater { new { eat(x) => x.case { R(v) => v + n } } }\ndef main(n: i64): i64 { println_i64(mk(n).eat(R(1))); 0 }"),
+        ("ctor_field_codata", "data Box { B(f: Fn) }\ncodata Fn { ap(x: i64): i64 }\ndef mk(n: i64): Box { B(new { ap(x) => x + n }) }\ndef main(n: i64): i64 { println_i64(mk(n).case { B(f) => f.ap(1) }); 0 }"),
+        ("ctor_field_data", "data Outer { MkO(i: Inner) }\ndata Inner { MkI(v: i64) }\ndef mk(n: i64): Outer { MkO(MkI(n)) }\ndef main(n: i64): i64 { println_i64(mk(n).case { MkO(i) => i.case { MkI(v) => v } }); 0 }"),
+        ("dtor_result_poly_data", "codata Str[A] { hd: A, tl: Str[A] }\ndata Pair[A, B] { Tup(a: A, b: B) }\ncodata Gen { next: Pair[i64, Str[i64]] }\ndef ones(k: i64): Str[i64] { new { hd => k, tl => ones(k + 1) } }\ndef mk(n: i64): Gen { new { next => Tup(n, ones(n)) } }\ndef main(n: i64): i64 { println_i64(mk(n).next.case[i64, Str[i64]] { Tup(a, b) => a + (b.tl[i64].hd[i64]) }); 0 }"),
+        ("dtor_result_poly_codata", "codata Str[A] { hd: A, tl: Str[A] }\ncodata Gen[A] { next: Str[A] }\ndef mk(n: i64): Gen[i64] { new { next => new { hd => n, tl => mk(n + 1).next[i64] } } }\ndef main(n: i64): i64 { println_i64(mk(n).next[i64].tl[i64].hd[i64]); 0 }"),
+        ("ctor_field_poly", "data List[A] { Nil, Cons(x: A, xs: List[A]) }\ndata Wrap[A] { W(l: List[A]) }\ndef mk(n: i64): Wrap[i64] { W(Cons(n, Nil)) }\ndef main(n: i64): i64 { println_i64(mk(n).case[i64] { W(l) => l.case[i64] { Nil => 0, Cons(h, t) => h } }); 0 }"),
+        ("dtor_result_nested_twice", "codata A1 { a: A2 }\ncodata A2 { b: A3 }\ncodata A3 { c: i64 }\ndef mk(n: i64): A1 { new { a => new { b => new { c => n + 3 } } } }\ndef main(n: i64): i64 { println_i64(mk(n).a.b.c); 0 }"),
+    ];
+    for (name, src) in progs {
+        sink.offer(move || FunCase { name: format!("declonly/{name}"), src: format!("{src}\n"), inputs: vec![vec![0], vec![4]], sequenced: true });
     }
 }
 
